@@ -161,7 +161,9 @@ def check_maybe_pair(P, chk):
         if not ok:
             # `match (it.next(), it.next(), it.next()) { (Some(a), Some(b), None) => Some(..) }`: exactly two elements
             nexts = [nb for nb, t in b.calls() if (callee_def(t) or "") == "std::iter::Iterator::next" and t["args"] and
-                     q.chains(b, t["args"][0]) and all(q.is_param(r, "self", ("values",)) for cn, r in q.chains(b, t["args"][0]))]
+                     q.chains(b, t["args"][0]) and all(q.is_param(r, "self") and tuple(r.fields) in ((), ("values",)) and
+                                                       all(n.rsplit("::", 1)[-1] in ("iter", "into_iter", "values", "iter_mut") for n in cn)
+                                                       for cn, r in q.chains(b, t["args"][0]))]
             order = sorted(nexts, key=lambda n: sum(1 for m in nexts if m != n and b.must_pass_block(n, m)))
             if len(order) == 3 and not any(n in blks for blks in b.loops().values() for n in nexts) and \
                     all(b.must_pass_block(order[i + 1], order[i]) for i in range(2)):
